@@ -103,10 +103,12 @@ def run_case(case):
             weights = None
         elif wspec.startswith("arr_"):
             weights = array_weights(wspec, data, scale)  # weights travel with their observations
+            if how == "shuffle2":
+                weights = weights.tolist()               # array_like: a python list of weights
         else:
             weights = wspec
         data_in = data.copy()
-        w_in = None if not isinstance(weights, np.ndarray) else weights.copy()
+        w_in = None if not isinstance(weights, (np.ndarray, list)) else np.array(weights, dtype=float)
         dist = ExponentiatedWeibullDistribution(f_delta=delta) if delta is not None else ExponentiatedWeibullDistribution()
         try:
             dist.fit(data, method=method, weights=weights)
@@ -115,7 +117,7 @@ def run_case(case):
             viol.append({"sig": {"check": "ewlsq", "clause": "exception", "wspec": wspec, "free_delta": delta is None},
                          "detail": {"type": type(e).__name__, "msg": str(e)[:200], "order": how}, "case": case})
             continue
-        if not np.array_equal(data, data_in) or (w_in is not None and not np.array_equal(weights, w_in)):
+        if not np.array_equal(data, data_in) or (w_in is not None and not np.array_equal(np.asarray(weights, dtype=float), w_in)):
             viol.append({"sig": {"check": "ewlsq", "clause": "input_mutated"}, "detail": {"order": how}, "case": case})
         results[how] = (float(dist.alpha), float(dist.beta), float(dist.delta))
 
